@@ -9,11 +9,12 @@ import Indi.Properties.Dec.Callback
 import Indi.Properties.Dec.Switch
 import Indi.Properties.Dec.Vector
 import Indi.Properties.Dec.Wait
+import Indi.Properties.Dec.Driver
 
 namespace Indi.Decisions
 open Indi
 
-/-- how many of the nineteen sites the translator followed on this tree -/
+/-- how many of the twenty-three sites the translator followed on this tree -/
 def translatedSites : Nat :=
   [Generated.routerDeliver?.isSome, Generated.routerIsBlob?.isSome, Generated.driverAccepts?.isSome,
    Generated.bufLoopGuard?.isSome, Generated.bufCleanupDue?.isSome, Generated.callbackAccepts?.isSome,
@@ -21,6 +22,7 @@ def translatedSites : Nat :=
    Generated.switchTurnsOn?.isSome, Generated.switchClearsOthers?.isSome, Generated.switchKeepsLast?.isSome,
    Generated.switchIsOtherOn?.isSome, Generated.switchNoOtherOn?.isSome, Generated.vectorEnabled?.isSome,
    Generated.waitRelease?.isSome, Generated.waitPollGuard?.isSome, Generated.waitTimeoutGuard?.isSome,
-   Generated.waitTimeoutArmed?.isSome].count true
+   Generated.waitTimeoutArmed?.isSome, Generated.setValueDefault?.isSome, Generated.toSetSilent?.isSome,
+   Generated.toDefDeletes?.isSome, Generated.driverGetAll?.isSome].count true
 
 end Indi.Decisions
